@@ -355,8 +355,24 @@ def exits(stmt, kinds):
     return bool(body) and body[-1]["k"] in kinds
 
 
-def depends_on_efac(expr, env):
-    """Does expr (transitively through local initialisers) contain efac(args.eff_factors, ...)?"""
+def mentions(expr, env, var):
+    """Does expr (transitively through local initialisers) refer to variable `var`?"""
+    seen = set()
+    stack = [expr]
+    while stack:
+        e = stack.pop()
+        for n in walk(e):
+            if n["k"] == "Ref" and n["n"] == var:
+                return True
+            if n["k"] == "Ref" and n.get("d") == "Var" and n["n"] in env and n["n"] not in seen:
+                seen.add(n["n"])
+                stack.append(env[n["n"]])
+    return False
+
+
+def depends_on_efac(expr, env, loopvar=None, wrong=None):
+    """Does expr (transitively through local initialisers) contain efac(args.eff_factors, <well>)?  With `loopvar` the
+    well must be the one of the current loop iteration; calls that name another well are collected in `wrong`."""
     seen = set()
     stack = [expr]
     while stack:
@@ -364,6 +380,10 @@ def depends_on_efac(expr, env):
         for n in walk(e):
             if n["k"] == "Call" and (n.get("fn") or "").endswith("::efac") or n["k"] == "Call" and n.get("fn") == "efac":
                 if "eff_factors" in show(n["a"][0]):
+                    if loopvar is not None and len(n["a"]) > 1 and not mentions(n["a"][1], env, loopvar):
+                        if wrong is not None:
+                            wrong.append(n)
+                        continue
                     return True
             if n["k"] == "Ref" and n.get("d") == "Var" and n["n"] in env and n["n"] not in seen:
                 seen.add(n["n"])
@@ -538,7 +558,12 @@ def run(chk):
                 for i, n in accs:
                     key = "%s:acc@%s" % (name, show(n["c"][0]))
                     ok_pos = i > guard_idx
-                    ok_ef = depends_on_efac(n["c"][1], env)
+                    wrong = []
+                    ok_ef = depends_on_efac(n["c"][1], env, loops[0]["var"]["n"], wrong)
+                    if wrong and not ok_ef:
+                        chk.instance(r_shut, key, sample=dict(primitive=name, accumulation=show(n)[:120], efac_of=show(wrong[0]["a"][1])[:60]))
+                        chk.violation(r_shut, key + ":efac-well", "%s: the contribution of well `%s` is weighted with the efficiency factor of `%s`, not of that well: group and field values are no longer the efficiency-weighted sum over their wells" % (name, loops[0]["var"]["n"], show(wrong[0]["a"][1])[:60]), fn["file"], wrong[0]["l"])
+                        continue
                     chk.instance(r_shut, key, sample=dict(primitive=name, accumulation=show(n)[:120], after_guard=ok_pos, weighted_by_efac=ok_ef))
                     if not ok_pos:
                         chk.violation(r_shut, key + ":order", "%s: accumulation `%s` happens before the shut-well guard" % (name, show(n)[:100]), fn["file"], n["l"])
